@@ -8,7 +8,7 @@ ROOT = os.path.dirname(os.path.dirname(os.path.abspath(__file__)))
 
 TV = "translation_validation"
 CHECKS = {
-    "C01": dict(level=TV, engine="fwsym+pysym", technique="symbolic execution of the emitted C++ (LLVM IR) and of the script on CPython; SMT trace-equivalence per path pair; bounded skeleton families",
+    "C01": dict(level=TV, engine="fwsym+pysym", technique="symbolic execution of the emitted C++ (LLVM IR) and of the script on CPython; SMT trace-equivalence per path pair; bounded skeleton families incl. the product of 27 statement kinds x 19 block contexts",
                 text="bounded translation validation: for each enumerated skeleton, firmware IR and CPython are executed symbolically over all sensor inputs and N loop passes; z3/cvc5 decide trace inequality; counterexamples replayed on g++ and stock CPython",
                 note="trusted: clang front end, mock Arduino core (vlib/mock), proxy semantics (validated by replay), z3/cvc5; skeleton families are finite; x86-64 int widths; float text format outside the claim"),
     "C02": dict(level=TV, engine="fwsym+pysym", technique="same differential as C01 on type-flow skeletons; values compared at every observation",
@@ -17,26 +17,26 @@ CHECKS = {
     "C03": dict(level=TV, engine="fwsym+pysym", technique="metamorphic skeleton families around every fold site, each member checked against CPython by the C01 differential",
                 text="bounded translation validation of metamorphic variants (literal / variable-routed / mutated in other branches, loops, passes) around every transpile-time evaluation site",
                 note="as C01"),
-    "C04": dict(level="other", engine="fwsym+pysym", technique="inductive step: firmware shadow globals and host object fields havocked from shared symbolic variables, one call executed symbolically on both sides, SMT trace/getter equivalence; clamp safety as an SMT query on the firmware IR alone",
+    "C04": dict(level="other", engine="fwsym+pysym", technique="inductive step: firmware shadow globals and host object fields havocked from shared symbolic variables, one call executed symbolically on both sides, SMT trace/getter equivalence; clamp safety as an SMT query on the firmware IR alone; the same differential with actuator commands placed in every block context",
                 text="bounded symbolic inductive step per actuator method (arbitrary invariant-satisfying device state, literal or run-time arguments) comparing firmware IR against the real host class, plus solver-decided clamp safety for arbitrary out-of-range arguments",
                 note="trusted: as C01 plus the representation invariants of DESIGN.md Appendix A; motor duty within one PWM count; binary32 vs binary64 within 1e-4; loops bounded (blink<=3, fade steps<=4)"),
-    "C05": dict(level=TV, engine="fwsym+pysym", technique="C01 differential for N=0..3 passes + temporal monitors evaluated on every feasible symbolic firmware path; break-guard decided by the real parser on the enumerated placements",
+    "C05": dict(level=TV, engine="fwsym+pysym", technique="C01 differential for N=0..3 passes + temporal monitors evaluated on every feasible symbolic firmware path (incl. device names re-bound at the top of the loop body); state-carrying statements in every block context over 3 passes; break-guard decided by the real parser under every block context that is not an inner loop",
                 text="bounded translation validation of prologue/body splitting for N in 0..3 passes, with configure-before-use / once-per-pass monitors over all feasible firmware paths",
                 note="as C01; monitors need literal pins (true for the skeletons)"),
-    "C06": dict(level="other", engine="fwsym", technique="CrossHair (z3) on the real string-literal escaper + clang front-end acceptance of every enumerated skeleton",
+    "C06": dict(level="other", engine="fwsym", technique="CrossHair (z3) on the real string-literal escaper for all short strings incl. control characters + clang front-end acceptance of every enumerated skeleton (937)",
                 text="compiler-front-end acceptance of the C++ emitted for every accepted skeleton of every family (the mandatory first stage of all firmware checks) plus a CrossHair/z3 lemma on string escaping; only the lemma is solver-quantified",
-                note="front end: clang++-14 against mock headers declaring the documented Arduino surface only; real AVR toolchain outside the claim; escaping lemma for printable strings up to the stated length"),
-    "C07": dict(level="other", engine="pysym", technique="symbolic indentation/kind vectors through the real block collectors (pysym), z3 regular-expression inclusion on the live header patterns, CrossHair on _strip_inline_comment; layout metamorphic cross-check through the real pipeline",
+                note="front end: clang++-14 against mock headers declaring the documented Arduino surface only; real AVR toolchain outside the claim; escaping lemma for all strings up to the stated length (a raw line break must make the text a non-literal)"),
+    "C07": dict(level="other", engine="pysym+fwsym", technique="symbolic indentation/kind vectors through the real block collectors (pysym), z3 regular-expression inclusion on the live header patterns, CrossHair on _strip_inline_comment; F-vs-H symbolic trace differential on the statement-kind x block-context product (a vanished or misplaced statement is a trace difference); layout metamorphic cross-check through the real pipeline",
                 text="bounded symbolic check that the block extent computed by the real collectors is Python's for every indentation/comment/blank arrangement within the bound, that header recognisers accept every spelling of the spec language, and that comment stripping matches a reference scanner; plus byte-identity of the firmware under 13 re-layouts of every skeleton",
                 note="block lines <= 3 (quick) / 4; regex subset translator; the layout part is concrete per variant and the ignored-line audit uses the REDUINO_VERIF hook"),
-    "C08": dict(level="other", engine="pysym", technique="z3 all-models enumeration of the calling conventions inspect.signature allows (symbolic per-parameter passing mode and keyword order); each model rendered and bound by the real parse(); compared with the fully explicit call",
+    "C08": dict(level="other", engine="pysym", technique="z3 all-models enumeration of the calling conventions inspect.signature allows (symbolic per-parameter passing mode and keyword order); each model rendered (also in 40 blank-placement re-spellings) and bound by the real parse(); compared with the fully explicit call",
                 text="every calling convention Python accepts for every constructor/method/Core helper (enumerated exhaustively by z3 from the signature constraints) is either rejected or yields the firmware of the explicit call carrying the values Python binds",
                 note="marker values per parameter; provider/callback parameters outside the check; comparison on emitted text modulo numeric-literal spelling"),
-    "C10": dict(level="other", engine="pysym", technique="set iteration order made a solver-chosen permutation inside the real parser/emitter modules (instrumented set type + AST rewrite of set literals), all order choices explored by symbolic path enumeration; replay under PYTHONHASHSEED 0..63",
+    "C10": dict(level="other", engine="pysym", technique="set iteration order made a solver-chosen permutation inside the real parser/emitter modules (instrumented set type + AST rewrite of set literals; sorted() is order-free only when its key is injective on the elements), all order choices explored by symbolic path enumeration; replay under PYTHONHASHSEED 0..63",
                 text="partial: output independence from set-iteration order decided over all order choices (reverse/rotate per iteration site) for the enumerated scripts; independence from earlier calls is a concrete cross-check only",
                 note="history/interleaving and cross-platform ordering are outside the solver claim (stated in evidence)"),
-    "C11": dict(level="other", engine="pysym", technique="inductive step over the real _eval_const evaluator on crafted trees with solver-chosen node class/operator/callee and symbolic leaf values (pysym); profiled call whitelist, outcome sort, power bound; audited hostile-corpus cross-check",
-                text="partial: one evaluator step for every expression node class with symbolic leaves - only whitelisted callables run, result stays in the value sort or fails with an ordinary exception, no unbounded integer power; side-effect freedom and whole-text robustness only cross-checked concretely under an audit hook",
+    "C11": dict(level="other", engine="pysym", technique="inductive step over the real _eval_const evaluator on crafted trees with solver-chosen node class/operator/callee and symbolic leaf values (pysym); profiled call whitelist, outcome sort, power bound; z3 sequence/regex theory on every live regular expression: no loop body has a string that is both one and several iterations (catastrophic backtracking), findings timing-confirmed; audited hostile-corpus cross-check with a full module-state snapshot",
+                text="partial: one evaluator step for every expression node class with symbolic leaves - only whitelisted callables run, result stays in the value sort or fails with an ordinary exception, no unbounded integer power; every regular expression of the transpiler is free of exponentially ambiguous loops (solver-decided); side-effect freedom, state freedom and whole-text robustness only cross-checked concretely under an audit hook",
                 note="tree depth 1 (induction hypothesis on children); the sites/* part is concrete and outside the solver claim"),
     "C09": dict(level=TV, engine="fwsym+pysym", technique="symbolic execution of the emitted C++ (IR) with memory/UB monitors under the CPython path condition; heap sampled per pass; ASan/UBSan replay",
                 text="bounded symbolic memory-safety and leak checking of list/str skeletons over N passes, indices constrained by the CPython run to be IndexError-free",
@@ -44,19 +44,19 @@ CHECKS = {
     "C12": dict(level="other", engine="pysym", technique="symbolic execution of the real target()/pio helpers with every effect a stub whose failure is a symbolic boolean (fault schedule chosen by the solver); claims as z3 implications over the fault variables",
                 text="all feasible fault schedules x upload flag x platform/board classes explored symbolically through the real target(); ordering, propagation and content claims decided on each path's effect log",
                 note="effects stubbed (subprocess, pathlib, tempfile, sys); parse/emit run concretely on three fixed scripts"),
-    "C13": dict(level="other", engine="pysym", technique="z3 finite-domain string query (partition), CrossHair/z3 on _format_lib_section, exhaustive enumeration of the finite registry x near-miss domain and of awkward ports/library lists through the real functions",
-                text="registry exactness over the finite (registry + near-miss)^2 domain (enumeration, stated), partition by z3, INI round-trip through configparser for awkward ports/lists, de-duplication lemma by CrossHair",
-                note="only the partition query and the lib-section lemma are solver-quantified; the rest is exhaustive over stated finite domains (a dict lookup on a symbolic string is not encoded)"),
+    "C13": dict(level="other", engine="pysym", technique="z3 finite-domain string query (partition), CrossHair/z3 on _format_lib_section and on the real write_project over an in-memory file system with symbolic prior file contents, exhaustive enumeration of the finite registry x near-miss domain and of awkward ports/library lists through the real functions on a real scratch directory under an audit hook",
+                text="registry exactness over the finite (registry + near-miss)^2 domain (enumeration, stated), partition by z3, final project files independent of symbolic prior contents and main.cpp verbatim (CrossHair), INI round-trip through configparser for awkward ports/lists with every write event of the process audited, de-duplication lemma by CrossHair",
+                note="the partition query, the lib-section lemma and the prior-state lemma are solver-quantified; the rest is exhaustive over stated finite domains (a dict lookup on a symbolic string is not encoded)"),
     "C14": dict(level="other", engine="pysym", technique="symbolic execution of the real _collect_required_libraries/_program_contains and emit over Program objects whose shape (slot kinds, placements) is solver-chosen; parser link + clang front end on the same shapes",
-                text="all Program shapes within the bound (<=3 device slots x 5 kinds x 3 placements) explored by symbolic path enumeration; libs <=> includes <=> instantiated classes on every path",
+                text="all Program shapes within the bound (<=3 device slots x 5 kinds x 3 placements x 3 constructor-argument variants) explored by symbolic path enumeration; libs <=> includes <=> instantiated classes on every path",
                 note="configuration-space exploration: the solver enumerates shapes, there is no data quantification"),
     "C15": dict(level="other", engine="fwsym+pysym", technique="symbolic execution of the emitted firmware IR over symbolic input signals/clock; spec claims decided per path by SMT; host Button by pysym",
-                text="bounded symbolic checking of button sampling/edges over N passes, potentiometer reads (differential vs CPython) and the real ultrasonic helper over a 2-call history reaching every static state, with symbolic echoes and clock",
-                note="trusted: mock core, clock model (delay and pulseIn advance a lower bound), z3/cvc5; N<=3 passes quick"),
+                text="bounded symbolic checking of button sampling/edges over N passes, potentiometer reads (differential vs CPython) and the real ultrasonic helper over a 2-call history reaching every static state, with symbolic echoes and clock - also with the millisecond counter free to wrap between any two readings",
+                note="trusted: mock core, clock models (non-decreasing; and modular counter with arbitrary first reading), pulseIn contract (result <= timeout), z3/cvc5; float results compared through a token abstraction first (unsat there implies unsat of the exact claim); N<=3 passes quick"),
     "C16": dict(level="other", engine="fwsym", technique="symbolic execution of the emitted buzzer code (IR) with symbolic arguments; tone-protocol claims decided per path by SMT; melodies compared with the score table",
                 text="bounded symbolic specification check of every buzzer call kind over run-time and literal arguments (incl. zero/negative), and of all seven melodies against the score table",
                 note="host Buzzer is a placeholder, so the oracle is the property text; the melody table in the emitter is the definition of the tunes"),
-    "C17": dict(level="other", engine="fwsym+pysym", technique="symbolic execution of the emitted LCD helper calls (IR, mock display records every put) vs the real host LCD (pysym); cell matrices compared per path; progress arithmetic decided by SMT against an integer reference",
+    "C17": dict(level="other", engine="fwsym+pysym", technique="symbolic execution of the emitted LCD helper calls (IR, mock display records every put) vs the real host LCD (pysym); cell matrices compared per path; progress arithmetic decided by SMT (cvc5 on the FP kernel) against an integer reference with value, max_value and width all symbolic",
                 text="bounded differential of LCD cell matrices (run-time column/row, enumerated geometry/length/alignment/clear) plus solver-decided progress-bar arithmetic on device and host and backlight/glyph traces",
                 note="texts are literals; geometries enumerated (see evidence bounds); host block glyph = device 0xFF"),
     "C18": dict(level="other", engine="fwsym+pysym", technique="symbolic execution of the emitted start/tick templates over N passes with a symbolic clock; per-path SMT claims (no delay, row confinement, step bound, rate limit); host animate/tick by pysym with symbolic timestamps",
@@ -65,7 +65,7 @@ CHECKS = {
     "C19": dict(level="other", engine="pysym", technique="symbolic execution of the real Python (z3 proxies) + SMT (QF_BV/QF_FP), inductive step",
                 text="bounded symbolic inductive step per class: object state symbolic under the representation invariant, one real method call with symbolic arguments, postconditions decided by z3/cvc5 on every feasible path; obligations the solvers do not decide are reported inconclusive",
                 note="trusted: z3/cvc5, proxy semantics (validated by stock-CPython replay of every counterexample), stated representation invariants; ints |v|<=2^31, finite doubles"),
-    "C20": dict(level="other", engine="pysym", technique="symbolic execution of the real Python helpers over symbolic operation histories / values; SMT (BV, FP, NRA for the affine law)",
+    "C20": dict(level="other", engine="pysym", technique="symbolic execution of the real Python helpers over symbolic operation histories / values; SMT (BV, FP, NRA for the affine law); CrossHair (z3 strings) on SerialMonitor.write over symbolic text and newline",
                 text="algebraic laws of the host helper models decided by z3 over the real code: Core pins as a memory over symbolic histories, frame law, exact affine map (reals), sleep, button edges, sensor pass-through, serial payload",
                 note="trusted: z3/cvc5, proxy semantics; history length <= 2 quick / 3 thorough; IEEE rounding of Utils.map outside the claim"),
 }
